@@ -218,6 +218,8 @@ def gen_case(seed, profile_weights, tier, tol_lo=None):
                 'maxtime': pre['maxtime'], 'err_tol': pre['err_tol']}
         if set(eqn.block_vars(cand)) & names_now:
             knobs['prelude'] = cand
+    if S['swarm'].random() < 0.1:
+        knobs['neighbour'] = S['swarm'].choice(['before_parse', 'after_parse'])
     if profile == 'chaos':
         where = S['faults'].random()
         kinds = list(CHAOS_KINDS)
@@ -277,7 +279,7 @@ def simplify_knobs(case):
         c = core.deep_copy(case)
         c['block']['maxtime'] = case['block']['maxtime'] - 1
         yield c
-    for key in ('trace_step', 'cap', 'tol_param', 'maxtime_attr', 'prelude'):
+    for key in ('trace_step', 'cap', 'tol_param', 'maxtime_attr', 'prelude', 'neighbour', 'maxtime_attr_late'):
         if kn.get(key) is not None:
             c = core.deep_copy(case)
             c['knobs'][key] = None
@@ -365,7 +367,8 @@ def base_stats(case, rec):
           'sweeps_counted': sum(rec['ticks'].values()) if rec['ticks'] else 0,
           'chaos_calls': rec['chaos_calls'], 'faults_fired': dict(rec['fired']),
           'reduction_on': 1 if case['knobs'].get('reduction', True) else 0,
-          'solver_reused': 1 if case['knobs'].get('prelude') is not None else 0}
+          'solver_reused': 1 if case['knobs'].get('prelude') is not None else 0,
+          'neighbour_solver_in_process': 1 if case['knobs'].get('neighbour') else 0}
     probes = {}
     if rec['ticks'] and max(rec['ticks'].values()) > 11:
         probes['half_step_damping_reached'] = 1
